@@ -99,8 +99,9 @@ def gen_consts():
     if not os.path.isdir(src):
         return True, "no translator"
     os.makedirs(os.path.join(WORK, "bin"), exist_ok=True)
-    binp = os.path.join(WORK, "bin", "genconsts")
-    rc, out = sh(["go", "build", "-tags", "verif", "-o", binp, "./cmd/genconsts"], cwd=HARNESS, env=GOENV, timeout=600)
+    mf, suffix = modfile_args()   # VERIF_REPO: the constants of THAT checkout
+    binp = os.path.join(WORK, "bin", "genconsts" + suffix)
+    rc, out = sh(["go", "build"] + mf + ["-tags", "verif", "-o", binp, "./cmd/genconsts"], cwd=HARNESS, env=GOENV, timeout=600)
     if rc != 0:
         return False, "genconsts does not build against /repo:\n" + out
     rc, out = sh([binp], timeout=60)
